@@ -33,6 +33,11 @@ def _setup_env():
         p = os.path.join(root, "xdg", sub)
         os.makedirs(p, exist_ok=True)
         os.environ[k] = p
+    # aw-core's ensure_path_exists() is check-then-create: 16 workers constructing their first
+    # PeeweeStorage at the same instant raced on this directory (FileExistsError, seen 4 times in
+    # ~1500 runs as an exit-2 harness failure within 0.4 s).  Create the shared directories up front.
+    for sub in ("data/activitywatch/aw-server", "config/activitywatch", "cache/activitywatch/log", "state/activitywatch"):
+        os.makedirs(os.path.join(root, "xdg", sub), exist_ok=True)
     os.environ["HOME"] = os.path.join(root, "home")
     os.makedirs(os.environ["HOME"], exist_ok=True)
     mypid = os.getpid()
